@@ -168,6 +168,7 @@ type uEnv struct {
 	nActivity    int             // pacer updates / rate callbacks seen so far
 	failInjected bool            // the transport-side RTCP writer fails every write the chain originates
 	failStreams  map[uint32]bool // local streams whose transport-side RTP writer always fails
+	parkRTCP     atomic.Pointer[chan struct{}] // non-nil: every transport-side RTCP write parks until the channel is closed
 	slowRTCP     atomic.Int64    // nanoseconds the transport-side RTCP writer takes per write (0: returns at once)
 	bindGen      map[uint32]int  // how many transport-side RTP writers have been handed out per local stream (under mu)
 	statsGetter  stats.Getter
@@ -556,18 +557,31 @@ func (e *uEnv) wireRTP(s uint32) interceptor.RTPWriter {
 
 func (e *uEnv) wireRTCP() interceptor.RTCPWriter {
 	return interceptor.RTCPWriterFunc(func(pkts []rtcp.Packet, _ interceptor.Attributes) (int, error) {
-		slow := time.Duration(e.slowRTCP.Load())
-		closedAtEntry := false
-		if slow > 0 { // a slow RTCP transport: the write began when it was called, whatever happens while it takes its time
+		// a slow transport (sleeps) or one that does not come back before it is released (parks): the write BEGAN when it was
+		// called, whatever happens while it takes its time
+		slow, park := time.Duration(e.slowRTCP.Load()), e.parkRTCP.Load()
+		if park != nil { // only the application's own RTCP write parks (a member whose loop hands work over from the
+			e.mu.Lock() // readers would make them wait for its own parked report - that coupling is not what is tested)
+			if !(len(pkts) > 0 && e.curRTCP != nil && pkts[0] == e.curRTCP) {
+				park = nil
+			}
+			e.mu.Unlock()
+		}
+		closedAtEntry, late := false, park != nil || slow > 0
+		if late {
 			e.mu.Lock()
 			closedAtEntry = e.closed
 			e.mu.Unlock()
-			time.Sleep(slow)
+			if park != nil {
+				<-*park
+			} else {
+				time.Sleep(slow)
+			}
 		}
 		e.mu.Lock()
 		defer e.mu.Unlock()
 		closed := e.closed
-		if slow > 0 {
+		if late {
 			closed = closedAtEntry
 		}
 		app := len(pkts) > 0 && e.curRTCP != nil && pkts[0] == e.curRTCP
@@ -1283,6 +1297,20 @@ func uRunX(t *testing.T, sc *uScript, out *vfWriter, scribble, quiet bool, rb *u
 			}
 		case "wait":
 			time.Sleep(time.Duration(st.Ms) * time.Millisecond)
+		case "parkw": // C10: from now on every transport-side RTCP write parks; ms == 0 releases them all
+			if st.Ms != 0 {
+				ch := make(chan struct{})
+				e.parkRTCP.Store(&ch)
+			} else if ch := e.parkRTCP.Swap(nil); ch != nil {
+				close(*ch)
+			}
+		case "getq": // C10: a statistics query that must come back (whatever else is in progress)
+			if e.statsGetter == nil {
+				ev["skipped"] = true
+
+				break
+			}
+			blocked, pan = uGuard(limit, func() { _ = e.statsGetter.Get(st.S) })
 		case "sloww": // C11: from now on the transport-side RTCP writer takes ms milliseconds per write
 			e.slowRTCP.Store(int64(time.Duration(st.Ms) * time.Millisecond))
 		case "failw": // C11: the RTCP writer starts (ms != 0) / stops failing for feedback the chain writes itself
